@@ -5,6 +5,7 @@ import (
 	"encoding/json"
 	"fmt"
 	"math"
+	"math/big"
 	"strconv"
 	"strings"
 	"testing"
@@ -55,6 +56,39 @@ func c18Check(c c18Case) error {
 	}
 	var got, gotCvt string
 	switch c.Via {
+	case "parse-int":
+		// the float reached through a literal in integer notation that overflows both 64-bit integer types (it is then
+		// exposed as this float, with the overflowed-integer flag): it must print like any other float of that value
+		if !(f >= 18446744073709551616.0 || f < -9223372036854775808.0) {
+			col("C18").Skip("parse-int path: value fits a 64-bit integer")
+			return nil
+		}
+		bi, _ := new(big.Float).SetFloat64(f).Int(nil)
+		lit := bi.String()
+		pj, err := simdjson.Parse([]byte("["+lit+"]"), nil)
+		if err != nil {
+			return fmt.Errorf("parse of %s failed: %v", lit, err)
+		}
+		ti := pj.Iter()
+		ti.AdvanceInto()
+		ti.AdvanceInto()
+		ti.AdvanceInto()
+		if v, err := ti.Float(); err != nil || math.Float64bits(v) != c.Bits {
+			col("C18").Skip("parse-int path: literal not exposed as the expected float (C03's business)")
+			return nil
+		}
+		if gotCvt, err = ti.StringCvt(); err != nil {
+			return fmt.Errorf("StringCvt after parse of %s: %v", lit, err)
+		}
+		it := pj.Iter()
+		b, err := it.MarshalJSON()
+		if err != nil {
+			return fmt.Errorf("marshal after parse of %s: %v", lit, err)
+		}
+		if len(b) < 2 || b[0] != '[' || b[len(b)-1] != ']' {
+			return fmt.Errorf("marshal after parse of %s gave %q", lit, b)
+		}
+		got = string(b[1 : len(b)-1])
 	case "parse":
 		if !bytes.ContainsAny(want, ".e") {
 			// an integer-notation literal is parsed as int/uint, not as a float: outside C18
@@ -236,6 +270,9 @@ func c18Eval(t *testing.T, bits uint64, via, class string) {
 	if via == "parse" {
 		hb[8] = 1
 	}
+	if via == "parse-int" {
+		hb[8] = 2
+	}
 	cl.Eval(!c18Trivial(f), evidHash(hb[:]), "class:"+class, "via:"+via)
 	cl.Sample(func() interface{} {
 		s, _ := json.Marshal(f)
@@ -342,6 +379,42 @@ func TestC18(t *testing.T) {
 		for i := -16; i <= 16; i++ {
 			c18Eval(t, math.Float64bits(float64(i)), "set", "smallint")
 		}
+	}
+
+	// (e2) dyadic rationals k/2^j and k*2^j with short k: their decimal expansions terminate, so exact ties at the last
+	// printed digit (round-half-even decisions of the shortest-digits algorithm) occur, which random patterns never hit;
+	// and large values reached through integer-notation literals
+	nd := nCases(120_000, 3_000_000)
+	for i := 0; i < nd; i++ {
+		k := r.u64() >> uint(40+r.intn(24)) // up to 24 significant bits
+		if k == 0 {
+			k = 1
+		}
+		j := r.intn(140) - 70
+		f := math.Ldexp(float64(k), j)
+		if r.intn(3) == 0 {
+			// 2^e + k/2^j: long mantissas with a short tail, e.g. 2^50+0.25
+			f = math.Ldexp(1, 20+r.intn(60)) + math.Ldexp(float64(k&0xff), -1-r.intn(8))
+		}
+		if f == 0 || math.IsInf(f, 0) {
+			continue
+		}
+		b := math.Float64bits(f)
+		if r.intn(4) == 0 {
+			b |= 1 << 63
+		}
+		c18Eval(t, b, "set", "dyadic")
+	}
+	for i := 0; i < nCases(40_000, 1_000_000); i++ {
+		e := 63 + r.intn(960)
+		b := uint64(1023+e)<<52 | r.u64()&(1<<52-1)
+		if r.intn(3) == 0 {
+			b &^= 1<<uint(r.intn(52)) - 1 // few significant bits
+		}
+		if r.intn(4) == 0 {
+			b |= 1 << 63
+		}
+		c18Eval(t, b, "parse-int", "overflowed-integer-literal")
 	}
 
 	// (f) integers up to 2^63 scaled by powers of ten
